@@ -267,11 +267,12 @@ def _check_nll(ck, inst, f, p, t, mname):
         mono, c = sm
         atoms = dict(mono)
         acc = [a for a in atoms if isinstance(a, T.App) and a.op == "accum"]
-        if len(acc) == 1 and atoms.get(B.single_atom()) == -1 and c == 1 and len(mono) == 2:
+        if len(acc) == 1 and atoms.get(B.single_atom()) == -1 and c in (1, -1) and len(mono) == 2:
             rest = acc[0].args[3]
             rs = rest.single_mono()
-            ok = rs is not None and rs[1] == -1 and len(rs[0]) == 1 and isinstance(rs[0][0][0], T.App) and rs[0][0][0].op == "sum" and rs[0][0][0].args[1] in ("all", (-1,))
-            if rs is not None and rs[1] == 1:
+            # -(sum of +sum log p) and +(sum of -sum log p) are the same value: the overall sign is c times the increment's sign
+            ok = rs is not None and rs[1] * c == -1 and len(rs[0]) == 1 and isinstance(rs[0][0][0], T.App) and rs[0][0][0].op == "sum" and rs[0][0][0].args[1] in ("all", (-1,))
+            if rs is not None and rs[1] * c == 1:
                 ok = False
         elif len(acc) == 1 and c == 1 and B.single_atom() not in atoms:
             ck.violation("C10.R3", inst + ":NLL = -(1/N) sum_groups sum log p [%s]" % _c(p), f.site(), "the summed log-likelihood is not divided by the number of samples")
@@ -280,14 +281,16 @@ def _check_nll(ck, inst, f, p, t, mname):
     # grouping idiom as in gradient()
     it = p.interp
     un = [c for c in it.ext_calls if c[0] == "numpy.unique"]
-    ck.check(len(un) == 1 and isinstance(un[0][1][0], VTens) and un[0][1][0].term == T.sym("sample_bases"), "C10.R3", inst + ":groups = unique bases rows [%s]" % _c(p), f.site(), "samples are not grouped by np.unique(sample_bases, axis=0)")
+    ck.check((len(un) == 1 and isinstance(un[0][1][0], VTens) and un[0][1][0].term == T.sym("sample_bases")) if un else None, "C10.R3", inst + ":groups = unique bases rows [%s]" % _c(p), f.site(),
+             "samples are not grouped by np.unique(sample_bases, axis=0)")
     for c in p.calls:
         if c[0].endswith("rotate_psi_inner_prod") or c[0].endswith("rotate_rho_probs"):
             a = c[7]
             isym = [s for s in (a.get("states").syms() if a.get("states") is not None else []) if s.startswith("i@")]
             bsym = [s for s in (a.get("basis").syms() if a.get("basis") is not None else []) if s.startswith("i@")]
             if isym or bsym:
-                ck.check(isym == bsym, "C10.R4", inst + ":group's samples rotated with the group's basis", f.site(), "samples of group %s are rotated with the basis of group %s" % (isym, bsym))
+                # a side on which no group index is visible (another way of selecting the group's rows) is undecided, not wrong
+                ck.check((isym == bsym) if (isym and bsym) else None, "C10.R4", inst + ":group's samples rotated with the group's basis", f.site(), "samples of group %s are rotated with the basis of group %s" % (isym, bsym))
 
 
 def _check_kl(ck, inst, f, p, t, mname, cls):
